@@ -254,6 +254,7 @@ def run(ctx):
     real_crypto_part(ctx)
     session_part(ctx)
     decode_ahead_part(ctx)
+    changing_directory_part(ctx)
     # M17: connections one after the other on one store, byte for byte against the composed model, and the
     # fresh-server probe at the connection level
     import e2e_hook
@@ -345,6 +346,80 @@ def decode_ahead_part(ctx):
     ctx.coverage["decode_ahead_pairs"] = pairs
     ctx.coverage["decode_ahead_pairs_same_operation"] = same
     ctx.coverage["evaluations"] = ctx.coverage.get("evaluations", 0) + 2 * pairs
+
+
+def changing_directory_case(seed):
+    """The SLUGS plug-in is on, a policy grants Get through a GROUP section, and the directory's answer for the user
+    CHANGES between the requests of one connection (group removed, user gone, service down, group given): every answer
+    on the used connection equals the answer the same request gets on a FRESH connection with the directory as it is
+    at that moment - the identity (user and groups) is established per request; nothing of an earlier request's
+    identity carries over.  Real KmipSession + engine; implementation against implementation."""
+    import random
+    import impl_session as S
+    import gen_session as G
+    import props.c17 as c17
+    from kmip.core import enums
+    rnd = random.Random(seed)
+    rig = S.Rig()
+    fails, n = [], 0
+    try:
+        E = enums
+        grant = {E.ObjectType.SYMMETRIC_KEY: {E.Operation.GET: E.Policy.ALLOW_ALL, E.Operation.GET_ATTRIBUTES: E.Policy.ALLOW_ALL,
+                                               E.Operation.LOCATE: E.Policy.ALLOW_ALL, E.Operation.ACTIVATE: E.Policy.ALLOW_ALL}}
+        rig.engine._operation_policies["audited"] = {"groups": {"g1": grant, "g9": grant}}
+        U = "http://slugs0.example"
+        settings = [("auth:slugs", {"enabled": "True", "url": U})]
+        tmpl = G.aes_template(128)
+        tmpl["attrs"].append({"name": "Operation Policy Name", "index": None, "value": {"k": "text", "v": "audited"}})
+        mk = G.encode_request(G.mkreq(12, [{"op": "create", "bid": None, "crypto": None, "otype": 2, "tmpl": tmpl}]))
+        r0 = rig.run_session([mk], S.make_cert(("bob",), "client"), auth_settings=[(a, dict(b)) for a, b in settings],
+                             slugs=S.FakeSlugs({U + "/": "ok:owners"}), digests=False)
+        snap = rig.snapshot()
+        item = rnd.choice([{"op": "get", "bid": None, "crypto": None, "uid": "1", "format": None, "compression": False, "wrap": None},
+                           {"op": "getAttributes", "bid": None, "crypto": None, "uid": "1", "names": []},
+                           {"op": "locate", "bid": None, "crypto": None, "max": None, "offset": None, "attrs": []}])
+        frame = G.encode_request(G.mkreq(rnd.choice([10, 12, 14]), [item]))
+        seqs = [["ok:g1", "ok:g2"], ["ok:g1", "nouser"], ["nouser", "ok:g1"], ["ok:g1", "down", "ok:g1"], ["ok:g2", "ok:g1", "ok:"],
+                ["ok:g1", "ok:g1", "nouser", "ok:g9"], ["ok:g1", "oknogroups"], ["ok:", "ok:g1"], ["down", "ok:g9", "ok:g2"]]
+        sq = seqs[seed % len(seqs)]
+        phases = [{U + "/": k} for k in sq]
+        rig.restore(snap)
+        outs, complete = c17.run_phased(rig, {"cns": 1, "eku": "client"}, True, ("changing", settings, phases), frame)
+        used = []
+        for cfg, o in outs:
+            used.append(None if o["obs"] is None else [(i["status"], i["reason"]) for i in o["obs"]["items"]])
+        for k, ph in enumerate(phases[:len(used)]):
+            rig.restore(snap)
+            rf = rig.run_session([frame], S.cert_der({"cns": 1, "eku": "client"}), auth_settings=[(a, dict(b)) for a, b in settings],
+                                 slugs=S.FakeSlugs(ph), digests=False)
+            try:
+                fresh = [(i["status"], i["reason"]) for i in S.decode_response(rf["out"][0], rig.default_version)["items"]]
+            except Exception:
+                fresh = None
+            n += 1
+            if used[k] != fresh:
+                fails.append(("c11:used-connection-answers-differently:%s" % item["op"],
+                              "directory answers %s for alice over the requests of one connection; request %d (%s, directory now %r) is "
+                              "answered %s on the used connection and %s on a fresh one" % (sq, k, item["op"], sq[k], used[k], fresh)))
+                break
+    finally:
+        rig.close()
+    return fails, n
+
+
+def changing_directory_part(ctx, prefix="c11"):
+    import multiprocessing
+    n = 18 if ctx.tier == "quick" else 300
+    seeds = [ctx.seed * 8191 + 64000 + i for i in range(n)]
+    with multiprocessing.get_context("fork").Pool(9) as pool:
+        res = pool.map(changing_directory_case, seeds)
+    tot = 0
+    for sd, (fails, k) in zip(seeds, res):
+        tot += k
+        for sig, what in fails:
+            ctx.report(sig.replace("c11:", prefix + ":", 1), what, {"kind": "changing-directory", "seed": sd})
+    ctx.coverage["changing_directory_requests"] = tot
+    ctx.coverage["evaluations"] = ctx.coverage.get("evaluations", 0) + tot
 
 
 def real_crypto_case(seed):
@@ -453,6 +528,11 @@ def replay(ctx, rep):
     if r.get("kind") == "server-e2e":
         import e2e_hook
         return e2e_hook.replay(ctx, rep)
+    if r.get("kind") == "changing-directory":
+        fails, _k = changing_directory_case(r["seed"])
+        for sig, what in fails:
+            print("  %s: %s" % (sig, what[:600]))
+        return not fails
     if r.get("kind") == "decode-ahead":
         fails, _k, _s = decode_ahead_case(r["seed"])
         for sig, what in fails:
